@@ -13,6 +13,10 @@ import (
 	"google.golang.org/api/storage/v1"
 )
 
+// afterPrefixGroup, appended to a collapsed prefix, sorts after every object name that starts with that prefix
+// (U+10FFFF is the greatest code point, and object names are valid UTF-8).
+const afterPrefixGroup = "\U0010FFFF"
+
 // Iterate over the file system to serve a GCS list-bucket request.
 func (g *GcsEmu) makeBucketListResults(ctx context.Context, baseUrl HttpBaseUrl, w http.ResponseWriter, delimiter string, cursor string, prefix string, bucket string, maxResults int) {
 	var errAbort = errors.New("sentinel error to abort walk")
@@ -33,6 +37,7 @@ func (g *GcsEmu) makeBucketListResults(ctx context.Context, baseUrl HttpBaseUrl,
 
 	moreResults := false
 	count := 0
+	lastEntry := "" // cursor value that resumes the listing after the last entry (item or prefix) of this page
 	err := g.store.Walk(ctx, bucket, func(ctx context.Context, filename string, fInfo os.FileInfo) error {
 		dbgWalk("walk: %s", filename)
 
@@ -65,28 +70,37 @@ func (g *GcsEmu) makeBucketListResults(ctx context.Context, baseUrl HttpBaseUrl,
 			return nil
 		}
 
+		// See if the filename (beyond the prefix) contains delimiter; if it does, the file is not an item of its
+		// own but is represented by its prefix (including the delimiter).
+		itemPrefix := ""
+		if delimiter != "" {
+			withoutPrefix := strings.TrimPrefix(filename, prefix)
+			delimiterPos := strings.Index(withoutPrefix, delimiter)
+			if delimiterPos >= 0 {
+				// Got a hit, reconstruct the item's prefix, including the trailing delimiter
+				itemPrefix = filename[:len(prefix)+delimiterPos+len(delimiter)]
+				if seenPrefixes[itemPrefix] {
+					// already represented by an entry of this page
+					return nil
+				}
+			}
+		}
+
 		if count >= maxResults {
 			moreResults = true
 			return errAbort
 		}
 		count++
 
-		if delimiter != "" {
-			// See if the filename (beyond the prefix) contains delimiter, if it does, don't record the item,
-			// instead record the prefix (including the delimiter).
-			withoutPrefix := strings.TrimPrefix(filename, prefix)
-			delimiterPos := strings.Index(withoutPrefix, delimiter)
-			if delimiterPos >= 0 {
-				// Got a hit, reconstruct the item's prefix, including the trailing delimiter
-				itemPrefix := filename[:len(prefix)+delimiterPos+len(delimiter)]
-				if !seenPrefixes[itemPrefix] {
-					seenPrefixes[itemPrefix] = true
-					prefixes = append(prefixes, itemPrefix)
-				}
-				return nil
-			}
+		if itemPrefix != "" {
+			seenPrefixes[itemPrefix] = true
+			prefixes = append(prefixes, itemPrefix)
+			// resume after every file this prefix stands for
+			lastEntry = itemPrefix + afterPrefixGroup
+			return nil
 		}
 
+		lastEntry = filename
 		found = append(found, item{
 			filename: filename,
 			fInfo:    fInfo,
@@ -123,9 +137,13 @@ func (g *GcsEmu) makeBucketListResults(ctx context.Context, baseUrl HttpBaseUrl,
 	}
 
 	var nextPageToken = ""
-	if moreResults && len(items) > 0 {
-		lastItemName := items[len(items)-1].Name
-		nextPageToken = gcsutil.EncodePageToken(lastItemName)
+	if len(items) < len(found) {
+		// partial results: resume after the last item that could be resolved
+		if moreResults && len(items) > 0 {
+			nextPageToken = gcsutil.EncodePageToken(items[len(items)-1].Name)
+		}
+	} else if moreResults && lastEntry != "" {
+		nextPageToken = gcsutil.EncodePageToken(lastEntry)
 	}
 
 	rsp := storage.Objects{
